@@ -4,7 +4,9 @@ use serde_json::Value;
 
 pub mod c07;
 pub mod c18;
+pub mod c19;
 pub mod c25;
+pub mod c26;
 pub mod canon;
 pub mod c31;
 pub mod c32;
@@ -25,6 +27,8 @@ pub fn replay_fn(kind: &str) -> Result<fn(&Value) -> Outcome> {
         "llrun" => llrun::replay,
         "c07" => c07::replay,
         "c31" => c31::replay,
+        "c19" => c19::replay,
+        "c26" => c26::replay,
         "c25" => c25::replay,
         "c18" => c18::replay,
         "names" => names::replay,
